@@ -433,23 +433,36 @@ func vfOracleC04(run *vfProdRun) *vfcore.Failure {
 		return nil
 	}
 	v := run.view()
+	// every clause is judged and the first failure of each kind is kept (Failure.Also): a symptom that a known finding
+	// explains must not hide one that it does not
+	var fails []*vfcore.Failure
+	have := map[string]bool{}
+	add := func(f *vfcore.Failure) {
+		if !have[f.Symptom] {
+			have[f.Symptom] = true
+			fails = append(fails, f)
+		}
+	}
 	// (3) wire validity of everything the brokers received
 	if len(v.viol) > 0 {
-		return run.fail("client-wire-violation", "a broker received malformed data: %s (%s)", v.viol[0].Note, v.viol[0].Key)
+		add(run.fail("client-wire-violation", "a broker received malformed data: %s (%s)", v.viol[0].Note, v.viol[0].Key))
 	}
 	// (2) nothing invented
 	for key, log := range v.logs {
 		for i := range log {
 			id := vfIdentOf(&log[i])
 			if id < 0 || id >= len(c.Msgs) {
-				return run.fail("invented-record", "partition %s offset %d holds a record the application did not submit: key=%q value=%q", key, log[i].Offset, log[i].Key, log[i].Value)
+				add(run.fail("invented-record", "partition %s offset %d holds a record the application did not submit: key=%q value=%q", key, log[i].Offset, log[i].Key, log[i].Value))
+				continue
 			}
 			if why := vfRecordMatchesMsg(&log[i], id, run); why != "" {
-				return run.fail("altered-record", "partition %s offset %d (message %d): %s", key, log[i].Offset, id, why)
+				add(run.fail("altered-record", "partition %s offset %d (message %d): %s", key, log[i].Offset, id, why))
+				continue
 			}
 			topic := strings.SplitN(key, "/", 2)[0]
 			if c.Topics[c.Msgs[id].Topic].Name != topic {
-				return run.fail("wrong-topic", "message %d submitted to %s found in %s", id, c.Topics[c.Msgs[id].Topic].Name, key)
+				add(run.fail("wrong-topic", "message %d submitted to %s found in %s", id, c.Topics[c.Msgs[id].Topic].Name, key))
+				continue
 			}
 		}
 	}
@@ -473,10 +486,12 @@ func vfOracleC04(run *vfProdRun) *vfcore.Failure {
 		// all partitions have leaders in this generator, so offered = [0..n) and partition == choice
 		if ch, ok := choice[o.Idx]; ok && !ch.Err && vfAllLeadersKnown(c) {
 			if ch.N != int32(len(topic.Leaders)) {
-				return run.fail("partitioner-offered", "message %d: partitioner was offered %d partitions, topic has %d", o.Idx, ch.N, len(topic.Leaders))
+				add(run.fail("partitioner-offered", "message %d: partitioner was offered %d partitions, topic has %d", o.Idx, ch.N, len(topic.Leaders)))
+				continue
 			}
 			if o.Part != ch.Choice {
-				return run.fail("partition-mismatch", "message %d: partitioner chose %d, success reports partition %d", o.Idx, ch.Choice, o.Part)
+				add(run.fail("partition-mismatch", "message %d: partitioner chose %d, success reports partition %d", o.Idx, ch.Choice, o.Part))
+				continue
 			}
 		}
 		key := fmt.Sprintf("%s/%d", topic.Name, o.Part)
@@ -491,7 +506,8 @@ func vfOracleC04(run *vfProdRun) *vfcore.Failure {
 			}
 		}
 		if !found {
-			return run.fail("success-not-in-log", "message %d reported successful on %s but that log does not contain it", o.Idx, key)
+			add(run.fail("success-not-in-log", "message %d reported successful on %s but that log does not contain it", o.Idx, key))
+			continue
 		}
 		if c.Conf.Idempotent && c.Conf.DupAsError {
 			// a DUPLICATE_SEQUENCE_NUMBER answer carries no offset: exempt from the offset clause
@@ -504,15 +520,21 @@ func vfOracleC04(run *vfProdRun) *vfcore.Failure {
 			if o.Offset >= 0 && o.Offset < int64(len(log)) {
 				got = vfIdentOf(&log[o.Offset])
 			}
-			return run.fail("success-wrong-offset", "message %d reported at %s offset %d, but that slot holds message %d", o.Idx, key, o.Offset, got)
+			add(run.fail("success-wrong-offset", "message %d reported at %s offset %d, but that slot holds message %d", o.Idx, key, o.Offset, got))
+			continue
 		}
 		if c.Conf.LogAppend && vfVersionAtLeast(c.Conf.Version, "0.10.0.0") {
 			if o.TsMs < 1600000000000 {
-				return run.fail("logappend-timestamp", "message %d: broker answered with LogAppendTime but the success carries timestamp %d", o.Idx, o.TsMs)
+				add(run.fail("logappend-timestamp", "message %d: broker answered with LogAppendTime but the success carries timestamp %d", o.Idx, o.TsMs))
+				continue
 			}
 		}
 	}
-	return nil
+	if len(fails) == 0 {
+		return nil
+	}
+	fails[0].Also = fails[1:]
+	return fails[0]
 }
 
 func vfAllLeadersKnown(c *vfProdCase) bool {
@@ -915,6 +937,7 @@ func vfNonTrivialProd(id string, run *vfProdRun, r *vfcore.Rec, failed bool, fir
 func TestVF_C01(t *testing.T) { vfcore.Main(t, vfProdSpec("C01", "C01", vfOracleC01)) }
 func TestVF_C02(t *testing.T) { vfcore.Main(t, vfProdSpec("C02", "C02", vfOracleC02)) }
 func TestVF_C04(t *testing.T) { vfcore.Main(t, vfProdSpec("C04", "C04", vfOracleC04)) }
+
 // ------------------------------------------------------------------------------------ C18 (producer half)
 
 func vfOracleC18Prod(run *vfProdRun) *vfcore.Failure {
